@@ -1,7 +1,7 @@
 """C02 — compiled programs behave as the language's reference semantics prescribe."""
 import gen_lang
 import wire
-from vlib import Case, lang_lines
+from vlib import Case, lang_lines, vmrun_lines
 
 RULE = ("op `eval`: each generated program text is scanned, parsed, compiled and run by the real pipeline in-process; the real parser's AST is handed to the Lean "
         "reference semantics (P2sh.Ref + P2sh.Static), whose verdict (final value, observation array, runtime error + line, compile error + line, stack height 0) "
@@ -16,7 +16,7 @@ HARNESS_TIMEOUT = 20
 def canon(s):
     # "rterr <line> <hexmsg> obs=…" / "cerr <line> <hexmsg>": message wording is not compared
     t = s.split(" ")
-    if t[0] == "rterr" and len(t) >= 3 and not t[2].startswith("obs="):
+    if t[0] == "rterr" and len(t) >= 3 and not t[2].startswith(("obs=", "g0=")):
         return " ".join(t[:2] + t[3:])
     if t[0] == "cerr" and len(t) >= 3:
         return " ".join(t[:2])
@@ -33,7 +33,7 @@ def classify(c):
 
 
 def model_skip(c):
-    return True
+    return not c.line.startswith("vmrun ")
 
 
 def sources(ctx):
@@ -55,7 +55,11 @@ def sources(ctx):
 def cases(ctx):
     srcs, tags = sources(ctx)
     lines = lang_lines(ctx, srcs)
-    return [Case(l, (t,), extra={"src": s}) for l, t, s in zip(lines, tags, srcs)]
+    out = [Case(l, (t,), extra={"src": s}) for l, t, s in zip(lines, tags, srcs)]
+    # the VM model on the real compiler's bytecode (correspondence of the VM model)
+    vl = vmrun_lines(ctx, srcs)
+    out += [Case(l, ("vm-" + t,), extra={"src": s}) for l, t, s in zip(vl, tags, srcs)]
+    return out
 
 
 def shrink(ctx, c):
